@@ -2,6 +2,7 @@ import Holpy.Kernel.Wire
 import Holpy.Kernel.Oracle
 import Holpy.C01.GenAxioms
 import Holpy.C01.GenLogicDefs
+import Holpy.C01.E2E
 /-
 Line protocol of the kernel model (C01; also used by C03):
   (rule NAME ARG (THM*))                      -> (ok THM) | (err KIND)        one checker step
@@ -16,6 +17,11 @@ Line protocol of the kernel model (C01; also used by C03):
   (aeq T1 T2) -> T|F            (gettype T) / (checktype T) -> (ok Ty) | (err KIND)
   (substtype ((n Ty)*) T) (incr K T) (substbound ABS T) (betaconv T) (betanorm FUEL T)
   (abstract T X) (occurs T X) (subst INST T)            -> (ok Term) | (err KIND) | T|F
+  (nested (ITEM*))  -> (ok RES SAME (THM*)) | (err)   C02's checker model over the real rule layer (E2E.lean),
+       no_gaps, not compute_only; ITEM = (item (INT*) RULE ARGX ((INT*)*) STATED SUB), RULE an atom (`_empty_` = "",
+       `_gap_` = the gap rule), SUB = (none) | (sub ITEM*); RES = (none) | THM the returned theorem, THM* the statements
+       stored in the proof object afterwards (document order, names erased), SAME = T iff the run with the premise
+       re-test (`rulesG`) accepts/refuses alike with the same returned theorem
 -/
 open Holpy Holpy.Wire
 
@@ -51,6 +57,61 @@ def statedOf : Sexp → Option (Option Thm)
   | .list [.atom "none"] => some none
   | s => (thmOf s).map some
 
+def intsOf (s : Sexp) : Option (List Int) := do (← s.toList?).mapM Sexp.toInt?
+
+partial def itemOf : Sexp → Option Holpy.C01.E2E.TItem
+  | .list [.atom "item", id, .atom rule, arg, .list prevs, stated, sub] => do
+    let r := if rule == "_empty_" then "" else if rule == "_gap_" then Holpy.C02.gapRule else rule
+    let sb ← match sub with
+      | .list [.atom "none"] => some none
+      | .list (.atom "sub" :: its) => (its.mapM itemOf).map some
+      | _ => none
+    some ⟨← intsOf id, r, ← argAxOf arg, ← prevs.mapM intsOf, ← statedOf stated, sb⟩
+  | _ => none
+
+/-- decoded terms carry no bound names; the wire format needs a non-empty atom -/
+def fixNames : Term → Term
+  | .comb f a => .comb (fixNames f) (fixNames a)
+  | .abs _ T b => .abs "_" T (fixNames b)
+  | t => t
+
+def thmToE (th : Thm) : Sexp := thmTo ⟨th.hyps.map fixNames, fixNames th.prop⟩
+
+partial def storedThs (its : List Holpy.C02.Item) : List Sexp :=
+  its.foldr (fun it acc =>
+    let here := match it.th with
+      | some s => match Holpy.C01.E2E.decSeq s with
+        | some th => [thmToE th]
+        | none => [Sexp.atom "undecodable"]
+      | none => []
+    let below := match it.sub with
+      | some l => storedThs l
+      | none => []
+    here ++ below ++ acc) []
+
+def seqTo (s : Option Holpy.C02.Seq) : Sexp :=
+  match s with
+  | none => .list [.atom "none"]
+  | some q => match Holpy.C01.E2E.decSeq q with
+    | some th => thmToE th
+    | none => .atom "undecodable"
+
+def nestedRun (its : List Holpy.C01.E2E.TItem) : String :=
+  let prf := its.map Holpy.C01.E2E.encItem
+  let cfg : Holpy.C02.Cfg := ⟨true, false, 0⟩
+  let r1 := Holpy.C02.checkProof (Holpy.C01.E2E.rules theoryTheorems) cfg 64 prf
+  let r2 := Holpy.C02.checkProof (Holpy.C01.E2E.rulesG theoryTheorems) cfg 64 prf
+  match r1 with
+  | .ok res =>
+    let same := match r2 with
+      | .ok res2 => res2.th == res.th
+      | .error _ => false
+    toString (Sexp.list [.atom "ok", seqTo res.th, Sexp.ofBool same, .list (storedThs res.root)])
+  | .error _ =>
+    match r2 with
+    | .error _ => "(err)"
+    | .ok _ => "(err guard-differs)"
+
 def verdictTo : Oracle.Verdict → String
   | .valid n ex => toString (Sexp.list [.atom "valid", Sexp.ofNat n, Sexp.ofBool ex])
   | .cex asg => toString (Sexp.list [.atom "cex", .list (asg.map fun (a, v) =>
@@ -59,6 +120,10 @@ def verdictTo : Oracle.Verdict → String
 
 def handle (line : String) : String :=
   match Sexp.parse line with
+  | some (.list [.atom "nested", .list its]) =>
+    match its.mapM itemOf with
+    | some l => nestedRun l
+    | none => "bad-op"
   | some (.list [.atom "ruleax", .atom name, arg, .list prems]) =>
     match argAxOf arg, prems.mapM thmOf with
     | some a, some ps =>
